@@ -24,9 +24,9 @@ structure DState where
 
 abbrev DM := Except String
 
-def pathStr (qn : QName) (t : Tree) (i : Nat) : DM Str :=
+def pathStr (qn : QName) (t : Tree) (i : Nat) : DM Path :=
   match getpath qn t i with
-  | some p => .ok (printPath p)
+  | some p => .ok p
   | none => .error "getpath: node not in tree"
 
 def DState.emit (s : DState) (a : Action) : DState := { s with out := a :: s.out }
@@ -40,7 +40,7 @@ def newAttrMap (ras : List (Str × Str)) (newKeys : List Str) : List (Str × Str
   ras.foldl (fun m kv => if newKeys.contains kv.1 then attrSet m kv.2 kv.1 else m) []
 
 /-- Phase "Update" of `update_node_attr`. -/
-def attrUpdates (path : Str) (ras : List (Str × Str)) :
+def attrUpdates (path : Path) (ras : List (Str × Str)) :
     List Str → List (Str × Str) → List Action → List (Str × Str) × List Action
   | [], las, out => (las, out)
   | k :: ks, las, out =>
@@ -51,7 +51,7 @@ def attrUpdates (path : Str) (ras : List (Str × Str)) :
     | _, _ => attrUpdates path ras ks las out
 
 /-- Phase "Move" (renames) of `update_node_attr`: returns attrs, remaining new keys, out. -/
-def attrRenames (path : Str) :
+def attrRenames (path : Path) :
     List Str → List (Str × Str) → List (Str × Str) → List Str → List Action →
       List (Str × Str) × List Str × List Action
   | [], las, _, newKeys, out => (las, newKeys, out)
@@ -65,7 +65,7 @@ def attrRenames (path : Str) :
           (newKeys.filter (· ≠ rk)) (.renameAttrib path lk rk :: out)
       | none => attrRenames path lks las nmap newKeys out
 
-def attrInserts (path : Str) (ras : List (Str × Str)) :
+def attrInserts (path : Path) (ras : List (Str × Str)) :
     List Str → List (Str × Str) → List Action → List (Str × Str) × List Action
   | [], las, out => (las, out)
   | k :: ks, las, out =>
@@ -73,7 +73,7 @@ def attrInserts (path : Str) (ras : List (Str × Str)) :
     | some rv => attrInserts path ras ks (attrSet las k rv) (.insertAttrib path k rv :: out)
     | none => attrInserts path ras ks las out
 
-def attrDeletes (path : Str) :
+def attrDeletes (path : Path) :
     List Str → List (Str × Str) → List Action → List (Str × Str) × List Action
   | [], las, out => (las, out)
   | k :: ks, las, out =>
@@ -82,7 +82,7 @@ def attrDeletes (path : Str) :
 
 /-- `update_node_attr(left, right)`: new attribute list of the left node and the actions
 (newest first, prepended to `out`). -/
-def updateAttrs (ignored : List Str) (path : Str) (las ras : List (Str × Str)) (out : List Action) :
+def updateAttrs (ignored : List Str) (path : Path) (las ras : List (Str × Str)) (out : List Action) :
     List (Str × Str) × List Action :=
   let lkeys := (nodeAttribs ignored las).map (·.1)
   let rkeys := (nodeAttribs ignored ras).map (·.1)
@@ -185,21 +185,25 @@ def alignChildren (qn : QName) (R : Tree) (l : Nat) (x : Tree) (s : DState) : DM
 
 def setPayload (t : Tree) (i : Nat) (f : Payload → Payload) : Tree := t.modify i f
 
-/-- `update_node_text(left, right)` -/
+def textStep (path : Path) (l : Nat) (x : Payload) (ln : Tree) (s : DState) : DState :=
+  if ln.payload.text ≠ x.text then
+    { s with left := setPayload s.left l (fun p => { p with text := x.text }),
+             out := .updateTextIn path x.text :: s.out }
+  else s
+
+def tailStep (path : Path) (l : Nat) (x : Payload) (ln : Tree) (s : DState) : DState :=
+  if ln.payload.tail ≠ x.tail then
+    { s with left := setPayload s.left l (fun p => { p with tail := x.tail }),
+             out := .updateTextAfter path x.tail :: s.out }
+  else s
+
+/-- `update_node_text(left, right)`: the path is computed once, before both updates. -/
 def updateText (qn : QName) (l : Nat) (x : Payload) (s : DState) : DM DState :=
   match s.left.find l with
   | none => .error "text: left node not in tree"
   | some ln => do
     let path ← pathStr qn s.left l
-    let s1 := if ln.payload.text ≠ x.text then
-        { s with left := setPayload s.left l (fun p => { p with text := x.text }),
-                 out := .updateTextIn path x.text :: s.out }
-      else s
-    let s2 := if ln.payload.tail ≠ x.tail then
-        { s1 with left := setPayload s1.left l (fun p => { p with tail := x.tail }),
-                  out := .updateTextAfter path x.tail :: s1.out }
-      else s1
-    .ok s2
+    .ok (tailStep path l x ln (textStep path l x ln s))
 
 /-- `update_node_attr` applied to the working copy. -/
 def updateAttrStep (qn : QName) (ignored : List Str) (l : Nat) (x : Payload) (s : DState) : DM DState :=
@@ -210,56 +214,69 @@ def updateAttrStep (qn : QName) (ignored : List Str) (l : Nat) (x : Payload) (s 
     let (las, out) := updateAttrs ignored path ln.payload.attrs x.attrs s.out
     .ok { s with left := setPayload s.left l (fun p => { p with attrs := las }), out := out }
 
-/-- One iteration of the main loop for the right node `x` (diff.py 455-524). -/
-def visit (qn : QName) (cfg : Cfg) (R : Tree) (x : Tree) (s : DState) : DM DState := do
-  let ltarget : Option Nat := (R.parentOf x.id).bind (fun rp => r2lGet s.ms rp.id)
-  let (l, s1) ← match r2lGet s.ms x.id with
-    | none => do
-      -- (b) insert
-      let pos ← findPos s R x.id
-      let tgt ← match ltarget with
-        | some t => pure t
-        | none => throw "insert: no target"
-      let tp ← pathStr qn s.left tgt
-      let l := s.next
-      let (act, pl) := match x.payload.kind with
-        | .comment => (Action.insertComment tp pos x.payload.text, commentPayload x.payload.text)
-        | .elem => (Action.insertNode tp x.payload.tag pos, elemPayload x.payload.tag)
-      let s1 : DState :=
-        { left := Tree.insertChild tgt pos (.node l pl []) s.left, ms := (l, x.id) :: s.ms,
-          inorder := x.id :: l :: s.inorder, out := act :: s.out, next := s.next + 1 }
-      let s2 ← updateAttrStep qn cfg.ignored l x.payload s1
-      pure (l, s2)
-    | some l => do
-      -- (c) move / rename / update
-      let lparent := (s.left.parentOf l).map Tree.id
-      let s1 ← if ltarget ≠ lparent then do
-          let pos ← findPos s R x.id
-          let tgt ← match ltarget with
-            | some t => pure t
-            | none => throw "move: no target"
-          if lparent.isNone then throw "move: lparent is None"
-          let p1 ← pathStr qn s.left l
-          let p2 ← pathStr qn s.left tgt
-          let left' ← moveIn s.left l tgt pos
-          pure { s with left := left', out := .moveNode p1 p2 pos :: s.out,
-                        inorder := x.id :: l :: s.inorder }
-        else pure s
-      let ln ← match s1.left.find l with
-        | some n => pure n
-        | none => throw "visit: left node not in tree"
-      let s2 ← if ln.payload.tag ≠ x.payload.tag then do
-          let p ← pathStr qn s1.left l
-          pure { s1 with left := setPayload s1.left l (fun q => { q with tag := x.payload.tag }),
-                         out := .renameNode p x.payload.tag :: s1.out }
-        else pure s1
-      let s3 ← updateAttrStep qn cfg.ignored l x.payload s2
-      pure (l, s3)
+/-- (b) insert: a new left node for the unmatched right node `x` (diff.py 461-480). -/
+def insertStep (qn : QName) (R : Tree) (x : Tree) (ltarget : Option Nat) (s : DState) :
+    DM (Nat × DState) := do
+  let pos ← findPos s R x.id
+  let tgt ← match ltarget with
+    | some t => pure t
+    | none => throw "insert: no target"
+  let tp ← pathStr qn s.left tgt
+  let l := s.next
+  let (act, pl) := match x.payload.kind with
+    | .comment => (Action.insertComment tp pos x.payload.text, commentPayload x.payload.text)
+    | .elem => (Action.insertNode tp x.payload.tag pos, elemPayload x.payload.tag)
+  pure (l, { left := Tree.insertChild tgt pos (.node l pl []) s.left, ms := (l, x.id) :: s.ms,
+             inorder := x.id :: l :: s.inorder, out := act :: s.out, next := s.next + 1 })
+
+/-- (c)(iii) move the partner `l` of `x` under the partner of `x`'s parent (diff.py 495-506). -/
+def moveStep (qn : QName) (R : Tree) (x : Tree) (l : Nat) (ltarget : Option Nat) (s : DState) :
+    DM DState :=
+  let lparent := (s.left.parentOf l).map Tree.id
+  if ltarget ≠ lparent then do
+    let pos ← findPos s R x.id
+    let tgt ← match ltarget with
+      | some t => pure t
+      | none => throw "move: no target"
+    if lparent.isNone then throw "move: lparent is None"
+    let p1 ← pathStr qn s.left l
+    let p2 ← pathStr qn s.left tgt
+    let left' ← moveIn s.left l tgt pos
+    pure { s with left := left', out := .moveNode p1 p2 pos :: s.out,
+                  inorder := x.id :: l :: s.inorder }
+  else pure s
+
+/-- `update_node_tag(left, right)` -/
+def renameStep (qn : QName) (l : Nat) (x : Payload) (s : DState) : DM DState :=
+  match s.left.find l with
+  | none => .error "visit: left node not in tree"
+  | some ln =>
+    if ln.payload.tag ≠ x.tag then do
+      let p ← pathStr qn s.left l
+      pure { s with left := setPayload s.left l (fun q => { q with tag := x.tag }),
+                    out := .renameNode p x.tag :: s.out }
+    else pure s
+
+/-- (d) align, then the text updates (diff.py 516-524). -/
+def visitTail (qn : QName) (R : Tree) (l : Nat) (x : Tree) (s1 : DState) : DM DState := do
   let s2 ← alignChildren qn R l x s1
-  let l' ← match r2lGet s2.ms x.id with
-    | some v => pure v
-    | none => throw "visit: KeyError r2lmap"
-  updateText qn l' x.payload s2
+  match r2lGet s2.ms x.id with
+  | some l' => updateText qn l' x.payload s2
+  | none => .error "visit: KeyError r2lmap"
+
+/-- One iteration of the main loop for the right node `x` (diff.py 455-524). -/
+def visit (qn : QName) (cfg : Cfg) (R : Tree) (x : Tree) (s : DState) : DM DState :=
+  let ltarget : Option Nat := (R.parentOf x.id).bind (fun rp => r2lGet s.ms rp.id)
+  match r2lGet s.ms x.id with
+  | none => do
+    let (l, s1) ← insertStep qn R x ltarget s
+    let s2 ← updateAttrStep qn cfg.ignored l x.payload s1
+    visitTail qn R l x s2
+  | some l => do
+    let s1 ← moveStep qn R x l ltarget s
+    let s2 ← renameStep qn l x.payload s1
+    let s3 ← updateAttrStep qn cfg.ignored l x.payload s2
+    visitTail qn R l x s3
 
 def visitAll (qn : QName) (cfg : Cfg) (R : Tree) : List Tree → DState → DM DState
   | [], s => .ok s
